@@ -359,7 +359,7 @@ func encodeEntry(key, val string, ttl, ts int64) []byte {
 }
 
 // plant creates conflicting copies (C06). Tag: "backup" (DM.PUTENTRY to the (M mod n)-th backup
-// owner), "delbackup" (DM.DELENTRY RC there), "merge" / "mergebackup" (a fragment pack with the
+// owner), "delbackup" (DM.DELENTRY RC there), "delprimary" (DM.DELENTRY on the owner), "merge" / "mergebackup" (a fragment pack with the
 // entries Key and Keys delivered with INTERNAL.NODE.MOVEFRAGMENT to the primary / a backup owner,
 // Count times). The timestamp is the newest existing copy's timestamp plus Delta (ns).
 func (r *Run) plant(op *plan.Op, rec *plan.Rec) {
@@ -399,6 +399,9 @@ func (r *Run) plant(op *plan.Op, rec *plan.Rec) {
 		rec.Err = Classify(rdb.Do(ctx, "DM.PUTENTRY", dmn, op.Key, string(encodeEntry(op.Key, op.Val, 0, ts))).Err())
 	case "delbackup":
 		rec.Err = Classify(rdb.Do(ctx, "DM.DELENTRY", dmn, op.Key, "RC").Err())
+	case "delprimary":
+		// the owner's own copy goes missing (as on a member that took the partition over without its data)
+		rec.Err = Classify(rdb.Do(ctx, "DM.DELENTRY", dmn, op.Key).Err())
 	case "merge", "mergebackup":
 		ents := []olric.VerifEntry{{Key: op.Key, Value: []byte(op.Val), Timestamp: ts}}
 		pack, err := olric.VerifFragmentPack(part, op.Tag == "mergebackup", dmn, 1<<16, ents)
